@@ -80,8 +80,7 @@ func main() {
 		os.Exit(3)
 	}
 	sched.RepoDir = vf.RepoDir()
-	tmp := vf.TempDir("c32")
-	defer os.RemoveAll(tmp)
+	tmp := vf.TempDir("c32") // removed before Finish (which exits the process)
 
 	type job struct{ first, count int }
 	var jobs []job
@@ -332,6 +331,7 @@ func main() {
 			_ = ioutil.WriteFile(filepath.Join(vf.Root(), "replays", fmt.Sprintf("C32-race-%s-%s.txt", a.rep.Class, k)), []byte(a.rep.Text), 0644)
 		}
 	}
+	_ = os.RemoveAll(tmp)
 	r.Extra("race_reports", raceSummary)
 	r.Extra("shutdown_latency", latency)
 	r.Extra("rounds_planned", rounds)
